@@ -507,6 +507,13 @@ func recognise(c Case, b *built, f *finding) string {
 				}
 			}
 		}
+	case "subject-data-mismatch":
+		// index entries carry inline data, a child with a referrer gets a new digest algorithm: the rebuilt
+		// manifest keeps the old descriptor's data field (the old, differently serialised body) and the
+		// re-pushed referrer's subject carries it
+		if c.ChildData && hasKind(c, func(k string) bool { return k == "manifest-digest-algo" || k == "digest-algo" }) {
+			return "referrer-subject-keeps-stale-inline-data-after-digest-algo"
+		}
 	case "layer-mediatype-compression-mismatch":
 		// a layer rewritten by a file-level step after a compression change is encoded per its original media type
 		if hasKind(c, func(k string) bool { return k == "layer-compress" }) && hasKind(c, isFileStep) {
